@@ -215,6 +215,53 @@ def Grid.reverse (g : Grid) : Grid := { g with coords := g.coords.reverse, weigh
 /-- `Grid.reverse` before the repair: cached weights stay in the old order -/
 def Grid.reverseOld (g : Grid) : Grid := { g with coords := g.coords.reverse }
 
+/-! ## Float-like arithmetic (C10: what an in-place shift does to *floating-point* coordinates)
+
+The exact-rational operations above are what the code does whenever the float arithmetic is exact
+(the correspondence generates dyadic values for that reason).  In general `x += b` stores
+`fl(x + b)`.  `Coords.shiftR rnd` is the in-place shift with a rounding function applied to every
+stored sum; `roundBin 53 (-1022)` is IEEE-754 binary64 round-to-nearest-even (normal and subnormal
+range; overflow to ±inf is outside the model). -/
+
+def pow2 (e : Int) : Rat := if 0 ≤ e then ((2 ^ e.toNat : Nat) : Rat) else 1 / ((2 ^ (-e).toNat : Nat) : Rat)
+
+/-- `⌊log₂ |q|⌋` for `q ≠ 0` -/
+def ilog2 (q : Rat) : Int :=
+  let e : Int := (q.num.natAbs.log2 : Int) - (q.den.log2 : Int)
+  if pow2 e ≤ absQ q then e else e - 1
+
+/-- round half to even of a non-negative rational, as an integer -/
+def rheNat (x : Rat) : Nat :=
+  let f := x.floor
+  let r := x - (f : Rat)
+  (if r < 1 / 2 then f else if 1 / 2 < r then f + 1 else if f % 2 = 0 then f else f + 1).toNat
+
+/-- round to nearest, ties to even, to `p` significant bits with minimal exponent `emin`
+(`p = 53`, `emin = -1022`: binary64) -/
+def roundBin (p : Nat) (emin : Int) (q : Rat) : Rat :=
+  if q = 0 then 0 else
+    let e := max (ilog2 q) emin
+    let ulp := pow2 (e - ((p : Int) - 1))
+    let m : Rat := ((rheNat (absQ q / ulp) : Nat) : Rat) * ulp
+    if 0 ≤ q then m else -m
+
+def roundF64 : Rat → Rat := roundBin 53 (-1022)
+
+/-- `coords += b` where every stored sum is rounded by `rnd` -/
+def Coords.shiftR (rnd : Rat → Rat) (b : List Rat) : Coords → Coords
+  | .regular a => .regular (List.zipWith (fun x bi => { x with zero := rnd (x.zero + bi) }) a b)
+  | .separated a => .separated (List.zipWith (fun ax bi => ax.map (fun x => rnd (x + bi))) a b)
+  | .unstructured c => .unstructured (List.zipWith (fun col bi => col.map (fun x => rnd (x + bi))) c b)
+
+/-- the values an in-place shift along axis `i` rewrites: the origin of a regular axis, every stored
+coordinate otherwise -/
+def Coords.shiftVals : Coords → List (List Rat)
+  | .regular a => a.map fun x => [x.zero]
+  | .separated a => a
+  | .unstructured c => c
+
+def Grid.shiftR (rnd : Rat → Rat) (b : List Rat) (g : Grid) : Grid := { g with coords := g.coords.shiftR rnd b }
+
 def dot (r p : List Rat) : Rat := ratSum (List.zipWith (· * ·) r p)
 
 /-- matrix times point -/
